@@ -119,7 +119,15 @@ def verdict (L : Layout) (op : String) (a : List String) (ans : String) : Option
     match specOfArgs a with
     | some (sp, [x]) =>
       match x.toInt?, Codec.unhex ans with
-      | some x, some out => fmtVerdict sp L.f (decide (x < 0)) x.natAbs out
+      | some x, some out =>
+        match fmtVerdict sp L.f (decide (x < 0)) x.natAbs out with
+        | some e => some e
+        | none =>
+          -- default output (`{}` / `{:?}`: no flags, width or precision) must parse back to exactly the same value, on EVERY layout the hook reaches
+          if (sp.kind == "d" || sp.kind == "D") && sp.width.isNone && sp.prec.isNone && sp.align.isNone && !sp.plus && !sp.alt && !sp.zero &&
+              parseSpec L "plain" 10 out != s!"O:{x}" then
+            some s!"default output does not parse back: {parseSpec L "plain" 10 out}"
+          else none
       | _, _ => some "unreadable answer"
     | _ => none
   else if op == "rt" then
